@@ -41,6 +41,7 @@ def execute_runsim(task, package_dir, monitor_factories, crash_property, nontriv
         "digest": result.digest, "kinds": dict(result.kinds), "probes": dict(result.probes),
         "distinct": ["|".join("%s%d" % (k, int(c)) for k, c in gram) for gram in result.grams],
         "violations": [v.as_dict() for v in result.violations],
+        "faults": {k[len("fault_"):]: v for k, v in result.probes.items() if k.startswith("fault_")},
         "error": result.error, "notes": result.notes,
         "scenario": scn,
     }
